@@ -481,6 +481,139 @@ theorem resetProperties_ok (cfg : Cfg) (r : Reg) (nm : Option (Dict Str))
   simp only [hg, hm, h1]
   exact ⟨trivial, trivial, trivial, trivial, trivial, trivial, h2', h3⟩
 
+/-- a rebuilding loop that did not raise has expanded every definition -/
+theorem rebuild_success (fuel : Nat) (raw : Dict Raw) (m : Dict Str) (names : List Str) (acc : Dict (Dict CVal))
+    (h : (rebuild fuel raw m acc names).2 = none) :
+    ∀ n ∈ names, ∃ ex, expandDict fuel m (propsOf raw n) = .ok ex := by
+  induction names generalizing acc with
+  | nil => simp
+  | cons a t ih =>
+    simp only [rebuild] at h
+    cases hr : dget raw a with
+    | none => simp [hr] at h
+    | some e =>
+      simp only [hr] at h
+      cases hp : e.props with
+      | none => simp [hp] at h
+      | some props =>
+        simp only [hp] at h
+        cases hx : expandDict fuel m props with
+        | error x => simp [hx] at h
+        | ok ex =>
+          simp only [hx] at h
+          intro n hn
+          simp only [List.mem_cons] at hn
+          cases hn with
+          | inl e' => subst e'; exact ⟨ex, by simp [propsOf, hr, hp, hx]⟩
+          | inr e' => exact ih _ h n e'
+
+/-- `_resetProperties` touches `_profilesProperties` and `_usedMacros` only -/
+theorem resetProperties_fields (cfg : Cfg) (r : Reg) (nm : Option (Dict Str)) :
+    (resetProperties cfg r nm).1.names = r.names ∧ (resetProperties cfg r nm).1.raw = r.raw ∧
+    (resetProperties cfg r nm).1.default = r.default ∧ (resetProperties cfg r nm).1.known = r.known := by
+  unfold resetProperties
+  split
+  · exact ⟨rfl, rfl, rfl, rfl⟩
+  · simp only
+    split <;> exact ⟨rfl, rfl, rfl, rfl⟩
+
+/-- `_resetProperties` that did not raise: the facts of `resetProperties_ok` without assuming expandability -/
+theorem resetProperties_succ (cfg : Cfg) (r : Reg) (nm : Option (Dict Str))
+    (hs : (resetProperties cfg r nm).2 = none) (hnd : r.names.Nodup)
+    (hfull : ∀ n ∈ r.names, ∃ e, dget r.raw n = some e ∧ e.props.isSome) :
+    (resetProperties cfg r nm).1.used
+        = dupdate (envOf cfg.base r.raw r.names) (if truthy nm then nm.getD [] else []) ∧
+    dkeys (resetProperties cfg r nm).1.compiled = r.names ∧
+    (∀ n ∈ r.names, ∃ ex, expandDict cfg.fuel
+        (dupdate (envOf cfg.base r.raw r.names) (if truthy nm then nm.getD [] else [])) (propsOf r.raw n) = .ok ex ∧
+        dget (resetProperties cfg r nm).1.compiled n = some (compileDict ex)) := by
+  have hg := gatherMacros_eq r.raw cfg.base r.names
+    (fun n hn => by obtain ⟨e, he, _⟩ := hfull n hn; simp [he])
+  have hm : (if truthy nm = true then dupdate (envOf cfg.base r.raw r.names) (nm.getD []) else envOf cfg.base r.raw r.names)
+      = dupdate (envOf cfg.base r.raw r.names) (if truthy nm then nm.getD [] else []) := by
+    split <;> simp [dupdate_nil]
+  have hreb : (rebuild cfg.fuel r.raw
+      (dupdate (envOf cfg.base r.raw r.names) (if truthy nm then nm.getD [] else [])) [] r.names).2 = none := by
+    unfold resetProperties at hs
+    simp only [hg, hm] at hs
+    split at hs
+    · simp at hs
+    · assumption
+  have hex := rebuild_success _ _ _ _ _ hreb
+  obtain ⟨_, _, _, _, _, h6, h7, h8⟩ := resetProperties_ok cfg r nm hnd hfull hex
+  exact ⟨h6, h7, h8⟩
+
+/-- the central fact after the repairs: a full re-expansion that does not raise establishes the invariant, whatever
+the macro cache and the compiled table were before -/
+theorem reset_inv (cfg : Cfg) (r : Reg) (hs : (resetProperties cfg r none).2 = none) (hnd : r.names.Nodup)
+    (hdom : ∀ n, (dget r.raw n).isSome ↔ n ∈ r.names) (hfull : ∀ n e, dget r.raw n = some e → e.props.isSome) :
+    Inv cfg (updateKnown (resetProperties cfg r none).1) := by
+  obtain ⟨f1, f2, _, _⟩ := resetProperties_fields cfg r none
+  obtain ⟨h6, h7, h8⟩ := resetProperties_succ cfg r none hs hnd
+    (fun n hn => by
+      have := (hdom n).mpr hn
+      cases hd : dget r.raw n with
+      | none => simp [hd] at this
+      | some e => exact ⟨e, rfl, hfull n e hd⟩)
+  simp only [truthy, Bool.false_eq_true, if_false, dupdate_nil] at h6 h8
+  refine ⟨?_, ?_, ?_, ?_, ?_, ?_, rfl⟩
+  · show (resetProperties cfg r none).1.names.Nodup
+    rw [f1]; exact hnd
+  · intro n
+    show (dget (resetProperties cfg r none).1.raw n).isSome ↔ n ∈ (resetProperties cfg r none).1.names
+    rw [f1, f2]; exact hdom n
+  · intro n e
+    show dget (resetProperties cfg r none).1.raw n = some e → _
+    rw [f2]; exact hfull n e
+  · show SameEnv (resetProperties cfg r none).1.used
+      (envOf cfg.base (resetProperties cfg r none).1.raw (resetProperties cfg r none).1.names)
+    rw [f1, f2, h6]; exact SameEnv.refl _
+  · show dkeys (resetProperties cfg r none).1.compiled = (resetProperties cfg r none).1.names
+    rw [f1]; exact h7
+  · intro n hn
+    have hn' : n ∈ r.names := by
+      have : n ∈ (resetProperties cfg r none).1.names := hn
+      rw [f1] at this; exact this
+    show ∃ ex, expandDict cfg.fuel
+        (envOf cfg.base (resetProperties cfg r none).1.raw (resetProperties cfg r none).1.names)
+        (propsOf (resetProperties cfg r none).1.raw n) = .ok ex ∧
+        dget (resetProperties cfg r none).1.compiled n = some (compileDict ex)
+    rw [f1, f2]
+    exact h8 n hn'
+
+theorem atomic_ok' (f : Reg → Reg × Option Exc) (r : Reg) (h : (f r).2 = none) : atomic f r = f r := by
+  unfold atomic; simp [h]
+
+theorem atomic_err (f : Reg → Reg × Option Exc) (r : Reg) (e : Exc) (h : (f r).2 = some e) :
+    atomic f r = ({ (f r).1 with used := r.used, names := r.names, raw := r.raw, compiled := r.compiled,
+                                 known := r.known }, some e) := by
+  unfold atomic; simp [h]
+
+/-- `_atomic`: a method that raised has changed nothing the invariant talks about -/
+theorem atomic_inv (cfg : Cfg) (f : Reg → Reg × Option Exc) (r : Reg) (hinv : Inv cfg r)
+    (hok : (f r).2 = none → Inv cfg (f r).1) : Inv cfg (atomic f r).1 := by
+  cases h : (f r).2 with
+  | none => rw [atomic_ok' f r h]; exact hok h
+  | some e =>
+    rw [atomic_err f r e h]
+    exact ⟨hinv.nodup, hinv.rawDom, hinv.rawFull, hinv.used, hinv.ckeys, hinv.cvals, hinv.known⟩
+
+theorem atomic_ok (f : Reg → Reg × Option Exc) (r : Reg) (h : (atomic f r).2 = none) :
+    (f r).2 = none ∧ atomic f r = f r := by
+  cases hf : (f r).2 with
+  | none => exact ⟨rfl, atomic_ok' f r hf⟩
+  | some e => rw [atomic_err f r e hf] at h; simp at h
+
+/-- `_atomic`: after an exception the registry is the one before the call (given that the method does not assign
+`_defaultProfiles`) -/
+theorem atomic_fail (f : Reg → Reg × Option Exc) (r : Reg) (e : Exc) (h : (atomic f r).2 = some e)
+    (hd : (f r).1.default = r.default) : (atomic f r).1 = r := by
+  cases hf : (f r).2 with
+  | none => rw [atomic_ok' f r hf, hf] at h; simp at h
+  | some e' =>
+    rw [atomic_err f r e' hf]
+    simp only [hd]
+
 /-- `_resetProperties` never answers with `NoSuchProfileException` -/
 theorem rebuild_not_noSuch (fuel : Nat) (raw : Dict Raw) (m : Dict Str) (names : List Str) (acc : Dict (Dict CVal))
     (hE : ∀ d x, expandDict fuel m d = .error x → x ≠ .noSuchProfile) :
@@ -633,17 +766,22 @@ structure StoreReady (cfg : Cfg) (r1 : Reg) (p : Str) (ps : Dict PVal) (ms : Dic
   cvals : ∀ n ∈ r1.names, n ≠ p → ∃ ex, expandDict cfg.fuel
       (envOf cfg.base (dset r1.raw p { props := some ps, macros := ms }) (addNames r1.names p)) (propsOf r1.raw n)
         = .ok ex ∧ dget r1.compiled n = some (compileDict ex)
-  new : ∃ ex, expandDict cfg.fuel
-      (envOf cfg.base (dset r1.raw p { props := some ps, macros := ms }) (addNames r1.names p)) ps = .ok ex
 
 theorem addStore_inv (cfg : Cfg) (r1 : Reg) (p : Str) (ps : Dict PVal) (ms : Dict Str)
-    (h : StoreReady cfg r1 p ps ms) :
+    (h : StoreReady cfg r1 p ps ms) (hs : (addStore cfg r1 p ps ms).2 = none) :
     (addStore cfg r1 p ps ms).2 = none ∧ Inv cfg (addStore cfg r1 p ps ms).1 ∧
     (addStore cfg r1 p ps ms).1.names = addNames r1.names p ∧
     (addStore cfg r1 p ps ms).1.raw = dset r1.raw p { props := some ps, macros := ms } ∧
     (addStore cfg r1 p ps ms).1.default = r1.default := by
-  obtain ⟨ex, hex⟩ := h.new
-  have hex' : expandDict cfg.fuel r1.used ps = .ok ex := by rw [expandDict_congr h.used]; exact hex
+  have hsome : ∃ ex, expandDict cfg.fuel r1.used ps = .ok ex := by
+    unfold addStore at hs
+    cases hx : expandDict cfg.fuel r1.used ps with
+    | error e => simp [hx] at hs
+    | ok ex => exact ⟨ex, rfl⟩
+  obtain ⟨ex, hex'⟩ := hsome
+  have hex : expandDict cfg.fuel
+      (envOf cfg.base (dset r1.raw p { props := some ps, macros := ms }) (addNames r1.names p)) ps = .ok ex := by
+    rw [← expandDict_congr h.used]; exact hex'
   unfold addStore
   simp only [hex']
   refine ⟨by first | rfl | trivial, ?_, by first | rfl | trivial, by first | rfl | trivial,
@@ -714,15 +852,20 @@ theorem addMacros_falsy (cfg : Cfg) (r : Reg) (p : Str) (ms : Option (Dict Str))
   simp only [h, Bool.false_eq_true, if_false]
   rfl
 
-/-- T14.1 (add): adding a profile under a name that is not registered, with any macros, or re-adding a
-registered name without macros, keeps the invariant — provided the resulting contents expand -/
-theorem addProfile_inv (cfg : Cfg) (r : Reg) (p : Str) (ps : Dict PVal) (ms : Option (Dict Str))
+/-- the incremental path of `addProfile` (name not registered, any macros; or registered name without macros): if it
+does not raise, the invariant holds afterwards -/
+theorem addPlain_inv (cfg : Cfg) (r : Reg) (p : Str) (ps : Dict PVal) (ms : Option (Dict Str))
     (hinv : Inv cfg r) (hguard : p ∉ r.names ∨ truthy ms = false)
-    (hexp : Expandable cfg (dset r.raw p { props := some ps, macros := storedMacros r.raw p ms }) (addNames r.names p)) :
-    (addProfile cfg r p ps ms).2 = none ∧ Inv cfg (addProfile cfg r p ps ms).1 ∧
-    (addProfile cfg r p ps ms).1.names = addNames r.names p ∧
-    (addProfile cfg r p ps ms).1.raw = dset r.raw p { props := some ps, macros := storedMacros r.raw p ms } ∧
-    (addProfile cfg r p ps ms).1.default = r.default := by
+    (hsucc : (addPlain cfg r p ps ms).2 = none) :
+    Inv cfg (addPlain cfg r p ps ms).1 ∧
+    (addPlain cfg r p ps ms).1.names = addNames r.names p ∧
+    (addPlain cfg r p ps ms).1.raw = dset r.raw p { props := some ps, macros := storedMacros r.raw p ms } ∧
+    (addPlain cfg r p ps ms).1.default = r.default := by
+  have hmac : (addMacros cfg r p ms).2 = none := by
+    unfold addPlain at hsucc
+    cases hm : (addMacros cfg r p ms).2 with
+    | none => rfl
+    | some e => simp [hm] at hsucc
   -- the environment of the new contents, in terms of the old one
   have henv : SameEnv (envOf cfg.base (dset r.raw p { props := some ps, macros := storedMacros r.raw p ms })
         (addNames r.names p)) (dupdate (envOf cfg.base r.raw r.names) (if truthy ms then ms.getD [] else [])) := by
@@ -747,21 +890,6 @@ theorem addProfile_inv (cfg : Cfg) (r : Reg) (p : Str) (ps : Dict PVal) (ms : Op
           | none => rfl
           | some e => exact absurd ((hinv.rawDom p).mp (by simp [hd])) hp
         simp only [macrosOf, this]; exact SameEnv.refl _
-  -- the old definitions under the new environment
-  have hold : ∀ n ∈ r.names, n ≠ p → ∃ ex, expandDict cfg.fuel
-      (dupdate (envOf cfg.base r.raw r.names) (if truthy ms then ms.getD [] else [])) (propsOf r.raw n) = .ok ex := by
-    intro n hn hnp
-    have hmem : n ∈ addNames r.names p := by unfold addNames; split <;> simp [hn]
-    obtain ⟨ex, hx⟩ := hexp n hmem
-    rw [propsOf_dset_ne _ _ _ _ (fun e => hnp e.symm), expandDict_congr henv] at hx
-    exact ⟨ex, hx⟩
-  have hnew : ∃ ex, expandDict cfg.fuel
-      (envOf cfg.base (dset r.raw p { props := some ps, macros := storedMacros r.raw p ms }) (addNames r.names p)) ps
-        = .ok ex := by
-    have hmem : p ∈ addNames r.names p := by unfold addNames; split <;> simp_all
-    obtain ⟨ex, hx⟩ := hexp p hmem
-    rw [propsOf_dset_self] at hx
-    exact ⟨ex, hx⟩
   -- the three branches of lines 283-297 all lead to a state `addStore` can finish
   have key : ∃ r1, addMacros cfg r p ms = ((r1, storedMacros r.raw p ms), none) ∧
       StoreReady cfg r1 p ps (storedMacros r.raw p ms) ∧ r1.names = r.names ∧ r1.raw = r.raw ∧
@@ -775,23 +903,16 @@ theorem addProfile_inv (cfg : Cfg) (r : Reg) (p : Str) (ps : Dict PVal) (ms : Op
       have hsm : storedMacros r.raw p ms = ms.getD [] := by simp [storedMacros, ht]
       by_cases hany : (dkeys (ms.getD [])).any (fun k => (dget r.used k).isSome) = true
       · -- a known macro changes: reset
-        have hex : ∀ n ∈ r.names, ∃ ex, expandDict cfg.fuel
-            (dupdate (envOf cfg.base r.raw r.names)
-              (if truthy (some (ms.getD [])) then (some (ms.getD [])).getD [] else [])) (propsOf r.raw n) = .ok ex := by
-          intro n hn
-          have : truthy (some (ms.getD [])) = true := by
-            obtain ⟨a, l, hl⟩ := (truthy_iff ms).mp ht
-            subst hl; rfl
-          simp only [this, if_true, Option.getD_some]
-          have := hold n hn (fun e => hp (e ▸ hn))
-          simpa [ht] using this
-        have hr := resetProperties_ok cfg r (some (ms.getD [])) hinv.nodup
-          (fun n hn => by
-            have := (hinv.rawDom n).mpr hn
-            cases hd : dget r.raw n with
-            | none => simp [hd] at this
-            | some e => exact ⟨e, rfl, hinv.rawFull n e hd⟩) hex
-        obtain ⟨h1, h2, h3, h4, _, h6, h7, h8⟩ := hr
+        have hfull : ∀ n ∈ r.names, ∃ e, dget r.raw n = some e ∧ e.props.isSome := fun n hn => by
+          have := (hinv.rawDom n).mpr hn
+          cases hd : dget r.raw n with
+          | none => simp [hd] at this
+          | some e => exact ⟨e, rfl, hinv.rawFull n e hd⟩
+        have h1 : (resetProperties cfg r (some (ms.getD []))).2 = none := by
+          unfold addMacros at hmac
+          simpa [ht, hany] using hmac
+        obtain ⟨h2, h3, h4, _⟩ := resetProperties_fields cfg r (some (ms.getD []))
+        obtain ⟨h6, h7, h8⟩ := resetProperties_succ cfg r (some (ms.getD [])) h1 hinv.nodup hfull
         have htt : truthy (some (ms.getD [])) = true := by
           obtain ⟨a, l, hl⟩ := (truthy_iff ms).mp ht
           subst hl; rfl
@@ -800,7 +921,7 @@ theorem addProfile_inv (cfg : Cfg) (r : Reg) (p : Str) (ps : Dict PVal) (ms : Op
         · unfold addMacros
           simp only [ht, if_true, hany, h1, hsm]
         · refine ⟨by rw [h2]; exact hinv.nodup, by rw [h2, h3]; exact hinv.rawDom,
-            by rw [h3]; exact hinv.rawFull, by rw [h2]; exact h7, ?_, ?_, ?_⟩
+            by rw [h3]; exact hinv.rawFull, by rw [h2]; exact h7, ?_, ?_⟩
           · rw [h2, h3, h6]
             have := henv.symm
             simpa [ht] using this
@@ -811,7 +932,6 @@ theorem addProfile_inv (cfg : Cfg) (r : Reg) (p : Str) (ps : Dict PVal) (ms : Op
             refine ⟨ex, ?_, hx2⟩
             rw [expandDict_congr henv]
             simpa [ht] using hx1
-          · rw [h2, h3]; exact hnew
       · -- no known macro changes: just update the cache
         refine ⟨{ r with used := dupdate r.used (ms.getD []) }, ?_, ?_, rfl, rfl, rfl⟩
         · unfold addMacros
@@ -825,7 +945,7 @@ theorem addProfile_inv (cfg : Cfg) (r : Reg) (p : Str) (ps : Dict PVal) (ms : Op
               rw [List.any_eq_true]
               exact ⟨k, hmem, by rw [hinv.used k, hk]; rfl⟩
             rw [dget_dupdate_of_not_mem _ _ _ hnot]; exact hk
-          refine ⟨hinv.nodup, hinv.rawDom, hinv.rawFull, hinv.ckeys, ?_, ?_, hnew⟩
+          refine ⟨hinv.nodup, hinv.rawDom, hinv.rawFull, hinv.ckeys, ?_, ?_⟩
           · show SameEnv (dupdate r.used (ms.getD [])) _
             have h1 : SameEnv (dupdate r.used (ms.getD [])) (dupdate (envOf cfg.base r.raw r.names) (ms.getD [])) :=
               hinv.used.dupdate _
@@ -846,16 +966,132 @@ theorem addProfile_inv (cfg : Cfg) (r : Reg) (p : Str) (ps : Dict PVal) (ms : Op
           (addNames r.names p)) (envOf cfg.base r.raw r.names) := by
         have := henv
         simpa [hf, dupdate_nil] using this
-      refine ⟨hinv.nodup, hinv.rawDom, hinv.rawFull, hinv.ckeys, hinv.used.trans henv'.symm, ?_, hnew⟩
+      refine ⟨hinv.nodup, hinv.rawDom, hinv.rawFull, hinv.ckeys, hinv.used.trans henv'.symm, ?_⟩
       intro n hn hnp
       obtain ⟨ex, hx1, hx2⟩ := hinv.cvals n hn
       exact ⟨ex, by rw [expandDict_congr henv']; exact hx1, hx2⟩
   obtain ⟨r1, hm, hready, hn, hr, hd⟩ := key
-  have hs := addStore_inv cfg r1 p ps (storedMacros r.raw p ms) hready
-  unfold addProfile
+  have hst : (addStore cfg r1 p ps (storedMacros r.raw p ms)).2 = none := by
+    unfold addPlain at hsucc
+    simpa [hm] using hsucc
+  have hs := addStore_inv cfg r1 p ps (storedMacros r.raw p ms) hready hst
+  unfold addPlain
   simp only [hm]
   rw [hn, hr, hd] at hs
-  exact hs
+  exact hs.2
+
+/-- the path `replaced`: registered name, macros given — full re-expansion -/
+theorem addReplace_inv (cfg : Cfg) (r : Reg) (p : Str) (ps : Dict PVal) (ms : Dict Str)
+    (hinv : Inv cfg r) (hp : p ∈ r.names) (hs : (addReplace cfg r p ps ms).2 = none) :
+    Inv cfg (addReplace cfg r p ps ms).1 ∧
+    (addReplace cfg r p ps ms).1.names = r.names ∧
+    (addReplace cfg r p ps ms).1.raw = dset r.raw p { props := some ps, macros := ms } ∧
+    (addReplace cfg r p ps ms).1.default = r.default := by
+  have hres : (resetProperties cfg { r with raw := dset r.raw p { props := some ps, macros := ms } } none).2 = none := by
+    unfold addReplace at hs
+    simp only [hp, if_true] at hs
+    cases hx : (resetProperties cfg { r with raw := dset r.raw p { props := some ps, macros := ms } } none).2 with
+    | none => rfl
+    | some e => simp [hx] at hs
+  obtain ⟨f1, f2, f3, _⟩ :=
+    resetProperties_fields cfg { r with raw := dset r.raw p { props := some ps, macros := ms } } none
+  have hi := reset_inv cfg { r with raw := dset r.raw p { props := some ps, macros := ms } } hres hinv.nodup
+    (by
+      intro n
+      show (dget (dset r.raw p _) n).isSome ↔ n ∈ r.names
+      rw [dget_dset]
+      by_cases hpn : p = n
+      · subst hpn; simp [hp]
+      · simp only [hpn, if_false]; exact hinv.rawDom n)
+    (by
+      intro n e
+      show dget (dset r.raw p _) n = some e → _
+      rw [dget_dset]
+      by_cases hpn : p = n
+      · simp only [hpn, if_true, Option.some.injEq]; intro he; subst he; rfl
+      · simp only [hpn, if_false]; exact hinv.rawFull n e)
+  unfold addReplace
+  simp only [hp, if_true, hres]
+  exact ⟨hi, f1, f2, f3⟩
+
+theorem addProfileRaw_inv (cfg : Cfg) (r : Reg) (p : Str) (ps : Dict PVal) (ms : Option (Dict Str))
+    (hinv : Inv cfg r) (hs : (addProfileRaw cfg r p ps ms).2 = none) :
+    Inv cfg (addProfileRaw cfg r p ps ms).1 ∧
+    (addProfileRaw cfg r p ps ms).1.names = addNames r.names p ∧
+    (addProfileRaw cfg r p ps ms).1.raw = dset r.raw p { props := some ps, macros := storedMacros r.raw p ms } ∧
+    (addProfileRaw cfg r p ps ms).1.default = r.default := by
+  unfold addProfileRaw at *
+  by_cases hc : p ∈ r.names ∧ truthy ms = true
+  · simp only [hc, and_self, if_true] at hs ⊢
+    obtain ⟨a, b, c, d⟩ := addReplace_inv cfg r p ps (ms.getD []) hinv hc.1 hs
+    refine ⟨a, ?_, ?_, d⟩
+    · rw [b]; simp [addNames, hc.1]
+    · rw [c]; simp [storedMacros, hc.2]
+  · simp only [hc, if_false] at hs ⊢
+    have hguard : p ∉ r.names ∨ truthy ms = false := by
+      by_cases hp : p ∈ r.names
+      · right
+        cases ht : truthy ms with
+        | false => rfl
+        | true => exact absurd ⟨hp, ht⟩ hc
+      · left; exact hp
+    exact addPlain_inv cfg r p ps ms hinv hguard hs
+
+theorem addMacros_default (cfg : Cfg) (r : Reg) (p : Str) (ms : Option (Dict Str)) :
+    (addMacros cfg r p ms).1.1.default = r.default := by
+  unfold addMacros
+  by_cases ht : truthy ms = true
+  · simp only [ht, if_true]
+    by_cases hany : (dkeys (ms.getD [])).any (fun k => (dget r.used k).isSome) = true
+    · simp only [hany, if_true]; exact (resetProperties_fields cfg r _).2.2.1
+    · simp only [hany, Bool.false_eq_true, if_false]
+  · simp only [ht, Bool.false_eq_true, if_false]
+
+theorem addStore_default (cfg : Cfg) (r1 : Reg) (p : Str) (ps : Dict PVal) (ms : Dict Str) :
+    (addStore cfg r1 p ps ms).1.default = r1.default := by
+  unfold addStore
+  simp only
+  cases hx : expandDict cfg.fuel r1.used ps <;> simp only [updateKnown]
+
+/-- no path of `addProfile` assigns `_defaultProfiles` -/
+theorem addProfileRaw_default (cfg : Cfg) (r : Reg) (p : Str) (ps : Dict PVal) (ms : Option (Dict Str)) :
+    (addProfileRaw cfg r p ps ms).1.default = r.default := by
+  unfold addProfileRaw
+  by_cases hc : p ∈ r.names ∧ truthy ms = true
+  · simp only [hc, and_self, if_true]
+    unfold addReplace
+    simp only
+    cases hx : (resetProperties cfg
+      { r with names := if p ∈ r.names then r.names else r.names ++ [p],
+               raw := dset r.raw p { props := some ps, macros := ms.getD [] } } none).2 with
+    | none => simp only [updateKnown]; exact (resetProperties_fields cfg _ none).2.2.1
+    | some e => simp only; exact (resetProperties_fields cfg _ none).2.2.1
+  · simp only [hc, if_false]
+    unfold addPlain
+    simp only
+    cases hx : (addMacros cfg r p ms).2 with
+    | some e => simp only; exact addMacros_default cfg r p ms
+    | none => simp only; rw [addStore_default]; exact addMacros_default cfg r p ms
+
+/-- T14.1 (add), unconditional: `addProfile` keeps the invariant — whatever the name, the properties and the
+macros are, and whether it raises or not -/
+theorem addProfile_inv (cfg : Cfg) (r : Reg) (p : Str) (ps : Dict PVal) (ms : Option (Dict Str))
+    (hinv : Inv cfg r) : Inv cfg (addProfile cfg r p ps ms).1 :=
+  atomic_inv cfg _ r hinv (fun h => (addProfileRaw_inv cfg r p ps ms hinv h).1)
+
+theorem addProfile_ok (cfg : Cfg) (r : Reg) (p : Str) (ps : Dict PVal) (ms : Option (Dict Str))
+    (hinv : Inv cfg r) (hs : (addProfile cfg r p ps ms).2 = none) :
+    (addProfile cfg r p ps ms).1.names = addNames r.names p ∧
+    (addProfile cfg r p ps ms).1.raw = dset r.raw p { props := some ps, macros := storedMacros r.raw p ms } ∧
+    (addProfile cfg r p ps ms).1.default = r.default := by
+  obtain ⟨h1, h2⟩ := atomic_ok _ r hs
+  unfold addProfile
+  rw [h2]
+  exact (addProfileRaw_inv cfg r p ps ms hinv h1).2
+
+theorem addProfile_fail (cfg : Cfg) (r : Reg) (p : Str) (ps : Dict PVal) (ms : Option (Dict Str)) (e : Exc)
+    (h : (addProfile cfg r p ps ms).2 = some e) : (addProfile cfg r p ps ms).1 = r :=
+  atomic_fail _ r e h (addProfileRaw_default cfg r p ps ms)
 
 /-! ## 5. `removeProfile`, `removeProfile(all=True)`, `defaultProfiles` -/
 
@@ -865,14 +1101,14 @@ theorem macrosOf_derase_ne (raw : Dict Raw) (p n : Str) (h : n ≠ p) :
 theorem propsOf_derase_ne (raw : Dict Raw) (p n : Str) (h : n ≠ p) :
     propsOf (derase raw p) n = propsOf raw n := by simp [propsOf, dget_derase, h]
 
-/-- T14.1 (remove): removing a registered profile keeps the invariant — provided what is left expands
-(no remaining profile leans on a macro that only the removed profile defined) -/
-theorem removeProfile_inv (cfg : Cfg) (r : Reg) (p : Str) (hinv : Inv cfg r) (hp : p ∈ r.names)
-    (hexp : Expandable cfg (derase r.raw p) (r.names.erase p)) :
-    (removeProfile cfg r (some p)).2 = none ∧ Inv cfg (removeProfile cfg r (some p)).1 ∧
-    (removeProfile cfg r (some p)).1.names = r.names.erase p ∧
-    (removeProfile cfg r (some p)).1.raw = derase r.raw p ∧
-    (removeProfile cfg r (some p)).1.default = r.default := by
+/-- the body of `removeProfile` on a registered profile: if it does not raise (what is left still expands), the
+invariant holds and exactly that profile is gone -/
+theorem removeProfileRaw_inv (cfg : Cfg) (r : Reg) (p : Str) (hinv : Inv cfg r) (hp : p ∈ r.names)
+    (hs : (removeProfileRaw cfg r (some p)).2 = none) :
+    Inv cfg (removeProfileRaw cfg r (some p)).1 ∧
+    (removeProfileRaw cfg r (some p)).1.names = r.names.erase p ∧
+    (removeProfileRaw cfg r (some p)).1.raw = derase r.raw p ∧
+    (removeProfileRaw cfg r (some p)).1.default = r.default := by
   have hraw : ∃ e, dget r.raw p = some e := by
     have := (hinv.rawDom p).mpr hp
     cases hd : dget r.raw p with
@@ -900,11 +1136,11 @@ theorem removeProfile_inv (cfg : Cfg) (r : Reg) (p : Str) (hinv : Inv cfg r) (hp
     apply List.filter_congr
     intro x _
     by_cases hx : x = p <;> simp [hx]
-  unfold removeProfile
-  simp only [he, hcp, hp, if_true]
+  unfold removeProfileRaw at hs ⊢
+  simp only [he, hcp, hp, if_true] at hs ⊢
   by_cases hm : e.macros.isEmpty = true
   · -- no macros: nothing to re-expand
-    simp only [hm, Bool.not_true, Bool.false_eq_true, if_false]
+    simp only [hm, Bool.not_true, Bool.false_eq_true, if_false] at hs ⊢
     have hmp : macrosOf r.raw p = [] := by
       simp only [macrosOf, he]
       exact List.isEmpty_iff.mp hm
@@ -916,7 +1152,7 @@ theorem removeProfile_inv (cfg : Cfg) (r : Reg) (p : Str) (hinv : Inv cfg r) (hp
         intro h
         simp [h] at hn
       exact (macrosOf_derase_ne r.raw p n this).symm
-    refine ⟨by first | rfl | trivial, ?_, rfl, rfl, rfl⟩
+    refine ⟨?_, rfl, rfl, rfl⟩
     refine ⟨hnd', hrawDom', hrawFull', ?_, hck', ?_, rfl⟩
     · show SameEnv r.used (envOf cfg.base (derase r.raw p) (r.names.erase p))
       rw [henv]; exact hinv.used
@@ -930,73 +1166,93 @@ theorem removeProfile_inv (cfg : Cfg) (r : Reg) (p : Str) (hinv : Inv cfg r) (hp
         rw [dget_derase]; simp only [hn2.1, if_false]; exact h2
   · -- the profile had macros: everything is re-expanded from what is left
     have hm' : (!e.macros.isEmpty) = true := by simpa using hm
-    simp only [hm', if_true]
-    have hr := resetProperties_ok cfg
-      { r with compiled := derase r.compiled p, raw := derase r.raw p, names := r.names.erase p } none hnd'
-      (fun n hn => by
-        have := (hrawDom' n).mpr hn
-        cases hd : dget (derase r.raw p) n with
-        | none => simp [hd] at this
-        | some e' => exact ⟨e', rfl, hrawFull' n e' hd⟩)
-      (by
-        intro n hn
-        simp only [truthy, Bool.false_eq_true, if_false, dupdate_nil]
-        exact hexp n hn)
-    obtain ⟨h1, h2, h3, h4, _, h6, h7, h8⟩ := hr
-    simp only [truthy, Bool.false_eq_true, if_false, dupdate_nil] at h6 h8
-    simp only [h1]
-    refine ⟨by first | rfl | trivial, ?_, h2, h3, h4⟩
-    refine ⟨by rw [show (updateKnown _).names = _ from h2]; exact hnd', ?_, ?_, ?_, ?_, ?_, rfl⟩
-    · intro n
-      rw [show (updateKnown _).names = _ from h2, show (updateKnown _).raw = _ from h3]
-      exact hrawDom' n
-    · intro n e'
-      rw [show (updateKnown _).raw = _ from h3]
-      exact hrawFull' n e'
-    · rw [show (updateKnown _).names = _ from h2, show (updateKnown _).raw = _ from h3,
-        show (updateKnown _).used = _ from h6]
-      exact SameEnv.refl _
-    · rw [show (updateKnown _).names = _ from h2]; exact h7
-    · intro n hn
-      rw [show (updateKnown _).names = _ from h2] at hn
-      rw [show (updateKnown _).names = _ from h2, show (updateKnown _).raw = _ from h3]
-      exact h8 n hn
+    simp only [hm', if_true] at hs ⊢
+    have hres : (resetProperties cfg
+        { r with compiled := derase r.compiled p, raw := derase r.raw p, names := r.names.erase p } none).2 = none := by
+      cases hx : (resetProperties cfg
+        { r with compiled := derase r.compiled p, raw := derase r.raw p, names := r.names.erase p } none).2 with
+      | none => rfl
+      | some x => simp [hx] at hs
+    obtain ⟨f1, f2, f3, _⟩ := resetProperties_fields cfg
+      { r with compiled := derase r.compiled p, raw := derase r.raw p, names := r.names.erase p } none
+    have hi := reset_inv cfg
+      { r with compiled := derase r.compiled p, raw := derase r.raw p, names := r.names.erase p } hres hnd'
+      hrawDom' hrawFull'
+    simp only [hres]
+    exact ⟨hi, f1, f2, f3⟩
 
-/-- T14.5 `removeProfile` of a name that is not registered raises `NoSuchProfileException` and changes nothing -/
-theorem removeProfile_unknown (cfg : Cfg) (r : Reg) (p : Str) (hinv : Inv cfg r) (hp : p ∉ r.names) :
-    removeProfile cfg r (some p) = (r, some .noSuchProfile) := by
+theorem removeProfileRaw_unknown (cfg : Cfg) (r : Reg) (p : Str) (hinv : Inv cfg r) (hp : p ∉ r.names) :
+    removeProfileRaw cfg r (some p) = (r, some .noSuchProfile) := by
   have : dget r.raw p = none := by
     cases hd : dget r.raw p with
     | none => rfl
     | some e => exact absurd ((hinv.rawDom p).mp (by simp [hd])) hp
-  simp [removeProfile, this]
+  simp [removeProfileRaw, this]
 
-/-- whatever the registry looks like: a `removeProfile` that answers `NoSuchProfileException` has changed nothing -/
-theorem removeProfile_rejected_unchanged (cfg : Cfg) (r : Reg) (p : Option Str)
-    (h : (removeProfile cfg r p).2 = some .noSuchProfile) : (removeProfile cfg r p).1 = r := by
-  unfold removeProfile at *
-  cases p with
+/-- no path of `removeProfile` assigns `_defaultProfiles` -/
+theorem removeProfileRaw_default (cfg : Cfg) (r : Reg) (q : Option Str) :
+    (removeProfileRaw cfg r q).1.default = r.default := by
+  unfold removeProfileRaw
+  cases q with
   | none => rfl
   | some p =>
-    simp only at *
+    simp only
     cases h1 : dget r.raw p with
     | none => rfl
     | some e =>
-      simp only [h1] at *
+      simp only
       cases h2 : dget r.compiled p with
       | none => rfl
       | some c =>
-        simp only [h2] at *
-        split at h
-        · split at h
-          · split at h
-            · rename_i x hx
-              simp only [Option.some.injEq] at h
-              subst h
-              exact absurd hx (resetProperties_not_noSuch _ _ _)
-            · simp at h
-          · simp at h
-        · simp at h
+        simp only
+        by_cases hp : p ∈ r.names
+        · simp only [hp, if_true]
+          by_cases hm : (!e.macros.isEmpty) = true
+          · simp only [hm, if_true]
+            cases hx : (resetProperties cfg
+              { r with compiled := derase r.compiled p, raw := derase r.raw p, names := r.names.erase p } none).2 with
+            | none => simp only [updateKnown]; exact (resetProperties_fields cfg _ none).2.2.1
+            | some x => simp only; exact (resetProperties_fields cfg _ none).2.2.1
+          · simp only [hm, Bool.false_eq_true, if_false, updateKnown]
+        · simp only [hp, if_false]
+
+/-- T14.5 `removeProfile` of a name that is not registered raises `NoSuchProfileException` and changes nothing -/
+theorem removeProfile_unknown (cfg : Cfg) (r : Reg) (p : Str) (hinv : Inv cfg r) (hp : p ∉ r.names) :
+    removeProfile cfg r (some p) = (r, some .noSuchProfile) := by
+  unfold removeProfile
+  rw [atomic_err _ r .noSuchProfile (by rw [removeProfileRaw_unknown cfg r p hinv hp])]
+  rw [removeProfileRaw_unknown cfg r p hinv hp]
+
+/-- whatever the registry looks like and whatever is raised: a `removeProfile` that raises has changed nothing -/
+theorem removeProfile_fail (cfg : Cfg) (r : Reg) (q : Option Str) (e : Exc)
+    (h : (removeProfile cfg r q).2 = some e) : (removeProfile cfg r q).1 = r :=
+  atomic_fail _ r e h (removeProfileRaw_default cfg r q)
+
+/-- T14.1 (remove), unconditional -/
+theorem removeProfile_inv (cfg : Cfg) (r : Reg) (q : Option Str) (hinv : Inv cfg r) :
+    Inv cfg (removeProfile cfg r q).1 := by
+  apply atomic_inv cfg _ r hinv
+  intro h
+  cases q with
+  | none => simp [removeProfileRaw] at h
+  | some p =>
+    by_cases hp : p ∈ r.names
+    · exact (removeProfileRaw_inv cfg r p hinv hp h).1
+    · rw [removeProfileRaw_unknown cfg r p hinv hp] at h; simp at h
+
+theorem removeProfile_ok (cfg : Cfg) (r : Reg) (p : Str) (hinv : Inv cfg r)
+    (hs : (removeProfile cfg r (some p)).2 = none) :
+    p ∈ r.names ∧ (removeProfile cfg r (some p)).1.names = r.names.erase p ∧
+    (removeProfile cfg r (some p)).1.raw = derase r.raw p ∧
+    (removeProfile cfg r (some p)).1.default = r.default := by
+  obtain ⟨h1, h2⟩ := atomic_ok _ r hs
+  have hp : p ∈ r.names := by
+    by_cases hp : p ∈ r.names
+    · exact hp
+    · rw [removeProfileRaw_unknown cfg r p hinv hp] at h1; simp at h1
+  unfold removeProfile
+  rw [h2]
+  exact ⟨hp, (removeProfileRaw_inv cfg r p hinv hp h1).2⟩
 
 /-- the environment of contents in which no profile has macros is the base environment -/
 theorem envOf_no_macros (base : Dict Str) (raw : Dict Raw) (names : List Str)
@@ -1008,15 +1264,11 @@ theorem envOf_no_macros (base : Dict Str) (raw : Dict Raw) (names : List Str)
     simp only [List.foldl_cons, h a (by simp), dupdate_nil]
     exact ih base (fun n hn => h n (by simp [hn]))
 
-/-- T14.1 (remove all), partial: `removeProfile(all=True)` keeps the invariant only when the macro cache is the base
-environment — the code does not reset `_usedMacros` (finding C14-removeall-keeps-macros) -/
-theorem removeAll_inv_partial (cfg : Cfg) (r : Reg) (hinv : Inv cfg r)
-    (hguard : SameEnv (envOf cfg.base r.raw r.names) cfg.base) : Inv cfg (removeAll r) := by
-  refine ⟨by simp [removeAll, updateKnown], by simp [removeAll, updateKnown, dget],
-    by simp [removeAll, updateKnown, dget], ?_, by simp [removeAll, updateKnown, dkeys],
+/-- T14.1 (remove all), unconditional: nothing registered, macro cache = base macros -/
+theorem removeAll_inv (cfg : Cfg) (r : Reg) : Inv cfg (removeAll cfg r) :=
+  ⟨by simp [removeAll, updateKnown], by simp [removeAll, updateKnown, dget],
+    by simp [removeAll, updateKnown, dget], SameEnv.refl _, by simp [removeAll, updateKnown, dkeys],
     by simp [removeAll, updateKnown], rfl⟩
-  show SameEnv r.used (envOf cfg.base [] [])
-  exact hinv.used.trans hguard
 
 theorem setDefault_inv (cfg : Cfg) (r : Reg) (d : Option (List Str)) (hinv : Inv cfg r) :
     Inv cfg (setDefault r d) :=
@@ -1198,6 +1450,34 @@ theorem addStore_ok (cfg : Cfg) (r1 : Reg) (p : Str) (ps ex : Dict PVal) (ms : D
   unfold addStore
   simp only [h]
 
+theorem addProfileRaw_none (cfg : Cfg) (r : Reg) (p : Str) (ps : Dict PVal) :
+    addProfileRaw cfg r p ps none = addStore cfg r p ps (macrosOf r.raw p) := by
+  unfold addProfileRaw addPlain
+  have : ¬ (p ∈ r.names ∧ truthy (none : Option (Dict Str)) = true) := by simp [truthy]
+  simp only [this, if_false, addMacros_falsy cfg r p none rfl]
+
+theorem addStore_succ (cfg : Cfg) (r1 : Reg) (p : Str) (ps : Dict PVal) (ms : Dict Str)
+    (hs : (addStore cfg r1 p ps ms).2 = none) : ∃ ex, expandDict cfg.fuel r1.used ps = .ok ex := by
+  unfold addStore at hs
+  cases hx : expandDict cfg.fuel r1.used ps with
+  | error e => simp [hx] at hs
+  | ok ex => exact ⟨ex, rfl⟩
+
+/-- `addProfile(name, properties, None)` as `addProfiles` calls it: if it does not raise, it is one store step -/
+theorem addProfile_none_succ (cfg : Cfg) (r : Reg) (p : Str) (ps : Dict PVal)
+    (hs : (addProfile cfg r p ps none).2 = none) :
+    ∃ ex, expandDict cfg.fuel r.used ps = .ok ex ∧
+      addProfile cfg r p ps none = (updateKnown { r with
+        names := if p ∈ r.names then r.names else r.names ++ [p],
+        raw := dset r.raw p { props := some ps, macros := macrosOf r.raw p },
+        compiled := dset r.compiled p (compileDict ex) }, none) := by
+  obtain ⟨h1, h2⟩ := atomic_ok _ r hs
+  rw [addProfileRaw_none] at h1
+  obtain ⟨ex, hex⟩ := addStore_succ cfg r p ps _ h1
+  refine ⟨ex, hex, ?_⟩
+  unfold addProfile
+  rw [h2, addProfileRaw_none, addStore_ok cfg r p ps ex _ hex]
+
 theorem bulk_step (cfg : Cfg) (E : Dict Str) (pre rest : List ProfileDef) (d : ProfileDef) (r : Reg)
     (hb : Bulk cfg E pre (d :: rest) r) (hex : ∃ ex, expandDict cfg.fuel E d.props = .ok ex) :
     (addProfile cfg r d.name d.props none).2 = none ∧
@@ -1213,10 +1493,13 @@ theorem bulk_step (cfg : Cfg) (E : Dict Str) (pre rest : List ProfileDef) (d : P
     rw [List.nodup_append] at hnd
     exact hnd.2.2 _ h _ (by simp) rfl
   have hms : macrosOf r.raw d.name = dm d := hb.rawRest d (by simp)
+  have hraw : addProfileRaw cfg r d.name d.props none = (updateKnown { r with
+      names := if d.name ∈ r.names then r.names else r.names ++ [d.name],
+      raw := dset r.raw d.name { props := some d.props, macros := macrosOf r.raw d.name },
+      compiled := dset r.compiled d.name (compileDict ex) }, none) := by
+    rw [addProfileRaw_none, addStore_ok cfg r d.name d.props ex _ hex']
   unfold addProfile
-  rw [addMacros_falsy cfg r d.name none rfl]
-  simp only
-  rw [addStore_ok cfg r d.name d.props ex _ hex', hms]
+  rw [atomic_ok' _ r (by rw [hraw]), hraw, hms]
   simp only [hfresh, if_false]
   refine ⟨by first | rfl | trivial, ?_, by first | rfl | trivial⟩
   have hne_pre : ∀ d' ∈ pre, d.name ≠ d'.name := by
@@ -1326,71 +1609,299 @@ theorem bulk_done (cfg : Cfg) (l : List ProfileDef) (r : Reg) (hb : Bulk cfg (bu
     intro d hd
     simp [hprop d hd, hmac d hd]
 
-/-- T14.1 (bulk add / `__init__`): `addProfiles` on a registry without profiles, entries named apart, every entry
-expanding under the joint environment: no exception, invariant, contents = the entries in order -/
-theorem addProfiles_inv_empty (cfg : Cfg) (r : Reg) (l : List ProfileDef) (hinv : Inv cfg r) (hempty : r.names = [])
-    (hnd : (l.map (·.name)).Nodup)
-    (hex : ∀ d ∈ l, ∃ ex, expandDict cfg.fuel (bulkEnv cfg.base l) d.props = .ok ex) :
-    (addProfiles cfg r l).2 = none ∧ Inv cfg (addProfiles cfg r l).1 ∧
-    contents (addProfiles cfg r l).1 = l.map (fun d => { name := d.name, props := d.props, macros := dm d }) ∧
-    (addProfiles cfg r l).1.default = r.default := by
-  obtain ⟨p1, p2, p3, p4, p5, p6, p7, p8⟩ := preload_spec r l hnd
-  have hrawnone : ∀ n, dget r.raw n = none := by
-    intro n
-    cases hd : dget r.raw n with
-    | none => rfl
-    | some e =>
-      have := (hinv.rawDom n).mp (by simp [hd])
-      rw [hempty] at this; simp at this
-  have hused : SameEnv r.used cfg.base := by
-    have := hinv.used
-    rw [hempty] at this
-    exact this
-  have hck : r.compiled = [] := by
-    have := hinv.ckeys
-    rw [hempty] at this
-    cases hc : r.compiled with
-    | nil => rfl
-    | cons a t => rw [hc] at this; simp [dkeys] at this
-  have hb : Bulk cfg (bulkEnv cfg.base l) [] l (preloadMacros r l) := by
-    refine ⟨by rw [p2, hempty]; rfl, by simpa using hnd, by rw [p1]; exact bulkEnv_sameEnv hused l,
-      by simp, ?_, ?_, by rw [p3, p2, hempty, hck]; rfl, by simp, by rw [p5, p3]; exact hinv.known⟩
-    · intro d hd
-      rw [p6 d hd]
+theorem addEach_succ_head (cfg : Cfg) (r : Reg) (d : ProfileDef) (t : List ProfileDef)
+    (h : (addEach cfg r (d :: t)).2 = none) :
+    (addProfile cfg r d.name d.props none).2 = none ∧
+    addEach cfg r (d :: t) = addEach cfg (addProfile cfg r d.name d.props none).1 t := by
+  simp only [addEach] at h ⊢
+  cases hx : (addProfile cfg r d.name d.props none).2 with
+  | none => simp
+  | some e => simp [hx] at h
+
+/-- the loop of `addProfiles`, driven by the fact that it did not raise -/
+theorem bulk_loop_succ (cfg : Cfg) (E : Dict Str) (pre rest : List ProfileDef) (r : Reg)
+    (hb : Bulk cfg E pre rest r) (hs : (addEach cfg r rest).2 = none) :
+    Bulk cfg E (pre ++ rest) [] (addEach cfg r rest).1 ∧ (addEach cfg r rest).1.default = r.default := by
+  induction rest generalizing pre r with
+  | nil => simpa [addEach] using hb
+  | cons d t ih =>
+    obtain ⟨h1, h2⟩ := addEach_succ_head cfg r d t hs
+    obtain ⟨ex, hex, _⟩ := addProfile_none_succ cfg r d.name d.props h1
+    have hexE : ∃ ex, expandDict cfg.fuel E d.props = .ok ex := ⟨ex, by rw [← expandDict_congr hb.used]; exact hex⟩
+    obtain ⟨_, b2, b3⟩ := bulk_step cfg E pre t d r hb hexE
+    rw [h2] at hs ⊢
+    obtain ⟨a, c⟩ := ih (pre ++ [d]) _ b2 hs
+    exact ⟨by simpa [List.append_assoc] using a, by rw [c, b3]⟩
+
+/-- what the loop of `addProfiles` keeps when profiles are already registered (then the final re-expansion does
+the rest): names listed once; a registered name that is not about to be re-added has complete raw values; the raw
+table holds registered and pending names only -/
+structure Weak (pending : List ProfileDef) (r : Reg) : Prop where
+  nodup : r.names.Nodup
+  full : ∀ n ∈ r.names, n ∉ pending.map (·.name) → ∃ e, dget r.raw n = some e ∧ e.props.isSome
+  dom : ∀ n, (dget r.raw n).isSome → n ∈ r.names ∨ n ∈ pending.map (·.name)
+
+theorem preload_weak (r : Reg) (l : List ProfileDef) :
+    (preloadMacros r l).names = r.names ∧
+    (∀ n, n ∉ l.map (·.name) → dget (preloadMacros r l).raw n = dget r.raw n) ∧
+    (∀ n, (dget (preloadMacros r l).raw n).isSome → (dget r.raw n).isSome ∨ n ∈ l.map (·.name)) := by
+  induction l generalizing r with
+  | nil => simp [preloadMacros]
+  | cons a t ih =>
+    by_cases ht : truthy a.macros = true
+    · obtain ⟨h2, h7, h8⟩ := ih
+        { r with used := dupdate r.used (a.macros.getD []),
+                 raw := dset r.raw a.name { props := none, macros := a.macros.getD [] } }
+      simp only [preloadMacros, ht, if_true]
+      refine ⟨h2, ?_, ?_⟩
+      · intro n hn
+        simp only [List.map_cons, List.mem_cons, not_or] at hn
+        rw [h7 n hn.2, dget_dset_ne _ _ _ _ (fun e => hn.1 e.symm)]
+      · intro n hn
+        have := h8 n hn
+        rw [dget_dset] at this
+        simp only [List.map_cons, List.mem_cons]
+        by_cases hx : a.name = n
+        · right; left; exact hx.symm
+        · simp only [hx, if_false] at this
+          cases this with
+          | inl h => left; exact h
+          | inr h => right; right; exact h
+    · have hf : truthy a.macros = false := by simpa using ht
+      obtain ⟨h2, h7, h8⟩ := ih r
+      simp only [preloadMacros, hf, Bool.false_eq_true, if_false]
+      refine ⟨h2, ?_, ?_⟩
+      · intro n hn
+        simp only [List.map_cons, List.mem_cons, not_or] at hn
+        exact h7 n hn.2
+      · intro n hn
+        cases h8 n hn with
+        | inl h => left; exact h
+        | inr h => right; simp [h]
+
+theorem weak_loop (cfg : Cfg) (pending : List ProfileDef) (r : Reg) (hw : Weak pending r)
+    (hs : (addEach cfg r pending).2 = none) : Weak [] (addEach cfg r pending).1 := by
+  induction pending generalizing r with
+  | nil => simpa [addEach] using hw
+  | cons d t ih =>
+    obtain ⟨h1, h2⟩ := addEach_succ_head cfg r d t hs
+    obtain ⟨ex, _, heq⟩ := addProfile_none_succ cfg r d.name d.props h1
+    rw [h2] at hs ⊢
+    apply ih _ _ hs
+    rw [heq]
+    constructor
+    · show (if d.name ∈ r.names then r.names else r.names ++ [d.name]).Nodup
       split
-      · rfl
-      · rename_i ht
-        simp [macrosOf, hrawnone, dm, ht]
+      · exact hw.nodup
+      · rename_i hp
+        rw [List.nodup_append]
+        refine ⟨hw.nodup, by simp, ?_⟩
+        intro a ha b hb
+        simp only [List.mem_singleton] at hb
+        subst hb
+        exact fun e => hp (e ▸ ha)
+    · intro n hn hnt
+      show ∃ e, dget (dset r.raw d.name _) n = some e ∧ _
+      rw [dget_dset]
+      by_cases hx : d.name = n
+      · simp only [hx, if_true]; exact ⟨_, rfl, rfl⟩
+      · simp only [hx, if_false]
+        have hn' : n ∈ r.names := by
+          have : n ∈ (if d.name ∈ r.names then r.names else r.names ++ [d.name]) := hn
+          split at this
+          · exact this
+          · simp only [List.mem_append, List.mem_singleton] at this
+            cases this with
+            | inl h => exact h
+            | inr h => exact absurd h.symm hx
+        apply hw.full n hn'
+        simp only [List.map_cons, List.mem_cons, not_or]
+        exact ⟨fun e => hx e.symm, hnt⟩
     · intro n hn
-      cases p8 n hn with
-      | inl h => rw [hrawnone] at h; simp at h
-      | inr h => simpa using h
-  obtain ⟨a, b, c⟩ := bulk_loop cfg _ [] l _ hb hex
-  simp only [List.nil_append] at b
-  obtain ⟨i, ct⟩ := bulk_done cfg l _ b
-  exact ⟨a, i, ct, by rw [show (addProfiles cfg r l).1.default = (addEach cfg (preloadMacros r l) l).1.default from rfl, c, p4]⟩
+      have hn' : (dget (dset r.raw d.name { props := some d.props, macros := macrosOf r.raw d.name }) n).isSome := hn
+      rw [dget_dset] at hn'
+      show n ∈ (if d.name ∈ r.names then r.names else r.names ++ [d.name]) ∨ _
+      by_cases hx : d.name = n
+      · left; subst hx; split <;> simp_all
+      · simp only [hx, if_false] at hn'
+        cases hw.dom n hn' with
+        | inl h => left; split <;> simp [h]
+        | inr h =>
+          simp only [List.map_cons, List.mem_cons] at h
+          cases h with
+          | inl e => exact absurd e.symm hx
+          | inr e => right; exact e
+
+theorem addEach_default (cfg : Cfg) (r : Reg) (l : List ProfileDef) : (addEach cfg r l).1.default = r.default := by
+  induction l generalizing r with
+  | nil => rfl
+  | cons d t ih =>
+    have hd : (addProfile cfg r d.name d.props none).1.default = r.default := by
+      unfold addProfile
+      cases hx : (addProfileRaw cfg r d.name d.props none).2 with
+      | none => rw [atomic_ok' _ r hx]; exact addProfileRaw_default cfg r _ _ _
+      | some e => rw [atomic_err _ r e hx]; exact addProfileRaw_default cfg r _ _ _
+    simp only [addEach]
+    cases hx : (addProfile cfg r d.name d.props none).2 with
+    | none => simp only; rw [ih, hd]
+    | some e => simp only; exact hd
+
+theorem preload_default (r : Reg) (l : List ProfileDef) : (preloadMacros r l).default = r.default := by
+  induction l generalizing r with
+  | nil => rfl
+  | cons a t ih =>
+    simp only [preloadMacros]
+    split
+    · rw [ih]
+    · exact ih r
+
+/-- no path of `addProfiles` assigns `_defaultProfiles` -/
+theorem addProfilesRaw_default (cfg : Cfg) (r : Reg) (l : List ProfileDef) :
+    (addProfilesRaw cfg r l).1.default = r.default := by
+  have h0 : (addEach cfg (preloadMacros r l) l).1.default = r.default := by
+    rw [addEach_default, preload_default]
+  unfold addProfilesRaw
+  simp only
+  cases hx : (addEach cfg (preloadMacros r l) l).2 with
+  | some e => simp only; exact h0
+  | none =>
+    simp only
+    split
+    · cases hy : (resetProperties cfg (addEach cfg (preloadMacros r l) l).1 none).2 with
+      | none => simp only [updateKnown]; rw [(resetProperties_fields cfg _ none).2.2.1]; exact h0
+      | some e => simp only; rw [(resetProperties_fields cfg _ none).2.2.1]; exact h0
+    · exact h0
+
+/-- the body of `addProfiles`: if it does not raise, the invariant holds afterwards — on a registry without
+profiles through the incremental expansion under the joint environment, otherwise (or when a name occurs twice)
+through the final re-expansion -/
+theorem addProfilesRaw_inv (cfg : Cfg) (r : Reg) (l : List ProfileDef) (hinv : Inv cfg r)
+    (hs : (addProfilesRaw cfg r l).2 = none) : Inv cfg (addProfilesRaw cfg r l).1 := by
+  have hloop : (addEach cfg (preloadMacros r l) l).2 = none := by
+    unfold addProfilesRaw at hs
+    cases hx : (addEach cfg (preloadMacros r l) l).2 with
+    | none => rfl
+    | some e => simp [hx] at hs
+  by_cases hreset : (!r.names.isEmpty || !decide ((l.map (·.name)).Nodup)) = true
+  · -- re-expansion at the end
+    obtain ⟨p2, p7, p8⟩ := preload_weak r l
+    have hw0 : Weak l (preloadMacros r l) := by
+      refine ⟨by rw [p2]; exact hinv.nodup, ?_, ?_⟩
+      · intro n hn hnl
+        rw [p2] at hn
+        rw [p7 n hnl]
+        have := (hinv.rawDom n).mpr hn
+        cases hd : dget r.raw n with
+        | none => simp [hd] at this
+        | some e => exact ⟨e, rfl, hinv.rawFull n e hd⟩
+      · intro n hn
+        cases p8 n hn with
+        | inl h => left; rw [p2]; exact (hinv.rawDom n).mp h
+        | inr h => right; exact h
+    have hw := weak_loop cfg l _ hw0 hloop
+    have hres : (resetProperties cfg (addEach cfg (preloadMacros r l) l).1 none).2 = none := by
+      unfold addProfilesRaw at hs
+      simp only [hloop, hreset, if_true] at hs
+      cases hy : (resetProperties cfg (addEach cfg (preloadMacros r l) l).1 none).2 with
+      | none => rfl
+      | some e => simp [hy] at hs
+    have hi := reset_inv cfg _ hres hw.nodup
+      (fun n => ⟨fun h => by
+          cases hw.dom n h with
+          | inl h' => exact h'
+          | inr h' => simp at h',
+        fun h => by obtain ⟨e, he, _⟩ := hw.full n h (by simp); simp [he]⟩)
+      (fun n e he => by
+        have hn : n ∈ (addEach cfg (preloadMacros r l) l).1.names := by
+          cases hw.dom n (by simp [he]) with
+          | inl h' => exact h'
+          | inr h' => simp at h'
+        obtain ⟨e', he', hf⟩ := hw.full n hn (by simp)
+        rw [he] at he'; cases he'; exact hf)
+    unfold addProfilesRaw
+    simp only [hloop, hreset, if_true, hres]
+    exact hi
+  · -- nothing registered before and all names differ: the incremental path
+    have hcond : r.names.isEmpty = true ∧ (l.map (·.name)).Nodup := by
+      simp only [Bool.or_eq_true, Bool.not_eq_true', not_or, Bool.not_eq_false, decide_eq_false_iff_not,
+        Decidable.not_not] at hreset
+      simpa using hreset
+    have hempty : r.names = [] := List.isEmpty_iff.mp hcond.1
+    have hnd := hcond.2
+    obtain ⟨p1, p2, p3, p4, p5, p6, p7, p8⟩ := preload_spec r l hnd
+    have hrawnone : ∀ n, dget r.raw n = none := by
+      intro n
+      cases hd : dget r.raw n with
+      | none => rfl
+      | some e =>
+        have := (hinv.rawDom n).mp (by simp [hd])
+        rw [hempty] at this; simp at this
+    have hused : SameEnv r.used cfg.base := by
+      have := hinv.used
+      rw [hempty] at this
+      exact this
+    have hck : r.compiled = [] := by
+      have := hinv.ckeys
+      rw [hempty] at this
+      cases hc : r.compiled with
+      | nil => rfl
+      | cons a t => rw [hc] at this; simp [dkeys] at this
+    have hb : Bulk cfg (bulkEnv cfg.base l) [] l (preloadMacros r l) := by
+      refine ⟨by rw [p2, hempty]; rfl, by simpa using hnd, by rw [p1]; exact bulkEnv_sameEnv hused l,
+        by simp, ?_, ?_, by rw [p3, p2, hempty, hck]; rfl, by simp, by rw [p5, p3]; exact hinv.known⟩
+      · intro d hd
+        rw [p6 d hd]
+        split
+        · rfl
+        · rename_i ht
+          simp [macrosOf, hrawnone, dm, ht]
+      · intro n hn
+        cases p8 n hn with
+        | inl h => rw [hrawnone] at h; simp at h
+        | inr h => simpa using h
+    obtain ⟨b, _⟩ := bulk_loop_succ cfg _ [] l _ hb hloop
+    simp only [List.nil_append] at b
+    obtain ⟨i, _⟩ := bulk_done cfg l _ b
+    unfold addProfilesRaw
+    simp only [hloop, hreset, if_false]
+    exact i
+
+/-- T14.1 (bulk add), unconditional -/
+theorem addProfiles_inv (cfg : Cfg) (r : Reg) (l : List ProfileDef) (hinv : Inv cfg r) :
+    Inv cfg (addProfiles cfg r l).1 :=
+  atomic_inv cfg _ r hinv (fun h => addProfilesRaw_inv cfg r l hinv h)
+
+theorem addProfiles_fail (cfg : Cfg) (r : Reg) (l : List ProfileDef) (e : Exc)
+    (h : (addProfiles cfg r l).2 = some e) : (addProfiles cfg r l).1 = r :=
+  atomic_fail _ r e h (addProfilesRaw_default cfg r l)
 
 /-! ## 7. histories -/
 
-/-- The region in which the code keeps its invariant and nothing fails to expand. Outside it lie the known
-findings: `addProfile` of a registered name with macros, `addProfiles` (bulk add) on a registry that already holds
-profiles, `removeProfile(all)` with a non-base macro cache, and operations after which some definition no longer
-expands. -/
-def Good (cfg : Cfg) (r : Reg) : Op → Prop
-  | .add p ps ms => (p ∉ r.names ∨ truthy ms = false) ∧
-      Expandable cfg (dset r.raw p { props := some ps, macros := storedMacros r.raw p ms }) (addNames r.names p)
-  | .addMany l => r.names = [] ∧ (l.map (·.name)).Nodup ∧
-      ∀ d ∈ l, ∃ ex, expandDict cfg.fuel (bulkEnv cfg.base l) d.props = .ok ex
-  | .remove (some p) => p ∈ r.names → Expandable cfg (derase r.raw p) (r.names.erase p)
-  | .remove none => True
-  | .removeAll => SameEnv (envOf cfg.base r.raw r.names) cfg.base
-  | .setDefault _ => True
+/-- T14.1, unconditional: every operation keeps the invariant — whatever its arguments, whether it raises or not -/
+theorem step_inv (cfg : Cfg) (r : Reg) (op : Op) (hinv : Inv cfg r) : Inv cfg (step cfg r op).1 := by
+  cases op with
+  | add p ps ms => exact addProfile_inv cfg r p ps ms hinv
+  | addMany l => exact addProfiles_inv cfg r l hinv
+  | remove q => exact removeProfile_inv cfg r q hinv
+  | removeAll => exact removeAll_inv cfg r
+  | setDefault d => exact setDefault_inv cfg r d hinv
 
-def GoodRun (cfg : Cfg) : Reg → List Op → Prop
-  | _, [] => True
-  | r, op :: ops => Good cfg r op ∧ GoodRun cfg (step cfg r op).1 ops
+theorem run_inv (cfg : Cfg) (r : Reg) (ops : List Op) (hinv : Inv cfg r) : Inv cfg (run cfg r ops) := by
+  induction ops generalizing r with
+  | nil => exact hinv
+  | cons op ops ih => exact ih _ (step_inv cfg r op hinv)
 
-/-- the same operations on the contents alone -/
+/-- an operation that raises leaves the registry exactly as it was -/
+theorem step_fail (cfg : Cfg) (r : Reg) (op : Op) (e : Exc) (h : (step cfg r op).2 = some e) :
+    (step cfg r op).1 = r := by
+  cases op with
+  | add p ps ms => exact addProfile_fail cfg r p ps ms e h
+  | addMany l => exact addProfiles_fail cfg r l e h
+  | remove q => exact removeProfile_fail cfg r q e h
+  | removeAll => simp [step] at h
+  | setDefault d => simp [step] at h
+
+/-- the same operations on the contents alone (for a bulk add: entries under new, distinct names) -/
 def cstep (c : List Entry) : Op → List Entry
   | .add n ps ms =>
       if n ∈ c.map (·.name) then
@@ -1415,29 +1926,188 @@ def drun (d : Option (List Str)) : List Op → Option (List Str)
   | [] => d
   | op :: ops => drun (dstep d op) ops
 
-theorem step_good (cfg : Cfg) (r : Reg) (op : Op) (hinv : Inv cfg r) (hg : Good cfg r op) :
-    Inv cfg (step cfg r op).1 ∧ contents (step cfg r op).1 = cstep (contents r) op ∧
-    (step cfg r op).1.default = dstep r.default op := by
+/-- a bulk add is plain when it only brings new names, each once (otherwise it also replaces profiles; the
+invariant is kept all the same, but `cstep` does not describe the new contents) -/
+def Plain (r : Reg) : Op → Prop
+  | .addMany l => (∀ d ∈ l, d.name ∉ r.names) ∧ (l.map (·.name)).Nodup
+  | _ => True
+
+/-- the operation goes through, or it is a removal rejected with `NoSuchProfileException` -/
+def StepOk (cfg : Cfg) (r : Reg) (op : Op) : Prop :=
+  (step cfg r op).2 = none ∨ ((∃ q, op = .remove q) ∧ (step cfg r op).2 = some .noSuchProfile)
+
+def QuietRun (cfg : Cfg) : Reg → List Op → Prop
+  | _, [] => True
+  | r, op :: ops => StepOk cfg r op ∧ Plain r op ∧ QuietRun cfg (step cfg r op).1 ops
+
+/-- names and raw values during the loop of a plain bulk add -/
+structure Track (r0 : Reg) (pre rest : List ProfileDef) (r : Reg) : Prop where
+  names : r.names = r0.names ++ pre.map (·.name)
+  rawPre : ∀ d ∈ pre, dget r.raw d.name = some { props := some d.props, macros := dm d }
+  rawRest : ∀ d ∈ rest, macrosOf r.raw d.name = dm d
+  rawOld : ∀ n ∈ r0.names, dget r.raw n = dget r0.raw n
+
+theorem track_loop (cfg : Cfg) (r0 : Reg) (pre rest : List ProfileDef) (r : Reg)
+    (ht : Track r0 pre rest r) (hdis : ∀ d ∈ pre ++ rest, d.name ∉ r0.names)
+    (hnd : ((pre ++ rest).map (·.name)).Nodup) (hs : (addEach cfg r rest).2 = none) :
+    Track r0 (pre ++ rest) [] (addEach cfg r rest).1 := by
+  induction rest generalizing pre r with
+  | nil => simpa [addEach] using ht
+  | cons d t ih =>
+    obtain ⟨h1, h2⟩ := addEach_succ_head cfg r d t hs
+    obtain ⟨ex, _, heq⟩ := addProfile_none_succ cfg r d.name d.props h1
+    rw [h2] at hs ⊢
+    have hnd' := hnd
+    simp only [List.map_append, List.map_cons] at hnd'
+    have hfresh : d.name ∉ r.names := by
+      rw [ht.names]
+      simp only [List.mem_append, not_or]
+      refine ⟨hdis d (by simp), ?_⟩
+      intro h
+      rw [List.nodup_append] at hnd'
+      exact hnd'.2.2 _ h _ (by simp) rfl
+    have hne_pre : ∀ d' ∈ pre, d.name ≠ d'.name := by
+      intro d' hd' e
+      rw [List.nodup_append] at hnd'
+      exact hnd'.2.2 _ (List.mem_map.mpr ⟨d', hd', rfl⟩) _ (by simp) e.symm
+    have hne_rest : ∀ d' ∈ t, d.name ≠ d'.name := by
+      intro d' hd' e
+      rw [List.nodup_append] at hnd'
+      have := hnd'.2.1
+      simp only [List.nodup_cons] at this
+      exact this.1 (e ▸ List.mem_map.mpr ⟨d', hd', rfl⟩)
+    have := ih (pre ++ [d]) (addProfile cfg r d.name d.props none).1 ?_
+      (by simpa [List.append_assoc] using hdis) (by simpa [List.append_assoc] using hnd) hs
+    · simpa [List.append_assoc] using this
+    · rw [heq]
+      constructor
+      · show (if d.name ∈ r.names then r.names else r.names ++ [d.name]) = _
+        rw [if_neg hfresh, ht.names]
+        simp
+      · intro d' hd'
+        show dget (dset r.raw d.name _) d'.name = _
+        simp only [List.mem_append, List.mem_singleton] at hd'
+        cases hd' with
+        | inl h => rw [dget_dset_ne _ _ _ _ (hne_pre d' h)]; exact ht.rawPre d' h
+        | inr h => subst h; rw [dget_dset_self, ht.rawRest d' (by simp)]
+      · intro d' hd'
+        show macrosOf (dset r.raw d.name _) d'.name = _
+        rw [macrosOf_dset_ne _ _ _ _ (hne_rest d' hd')]
+        exact ht.rawRest d' (by simp [hd'])
+      · intro n hn
+        show dget (dset r.raw d.name _) n = _
+        have hne : d.name ≠ n := by
+          intro e
+          apply hdis d (by simp)
+          rw [e]; exact hn
+        rw [dget_dset_ne _ _ _ _ hne]
+        exact ht.rawOld n hn
+
+/-- a plain bulk add that does not raise appends its entries to the contents -/
+theorem addProfiles_ok_plain (cfg : Cfg) (r : Reg) (l : List ProfileDef) (hinv : Inv cfg r)
+    (hdis : ∀ d ∈ l, d.name ∉ r.names) (hnd : (l.map (·.name)).Nodup) (hs : (addProfiles cfg r l).2 = none) :
+    contents (addProfiles cfg r l).1
+      = contents r ++ l.map (fun d => { name := d.name, props := d.props, macros := dm d }) := by
+  obtain ⟨h1, h2⟩ := atomic_ok _ r hs
+  have hloop : (addEach cfg (preloadMacros r l) l).2 = none := by
+    unfold addProfilesRaw at h1
+    cases hx : (addEach cfg (preloadMacros r l) l).2 with
+    | none => rfl
+    | some e => simp [hx] at h1
+  obtain ⟨_, p2, _, _, _, p6, p7, _⟩ := preload_spec r l hnd
+  have ht0 : Track r [] l (preloadMacros r l) := by
+    refine ⟨by simp [p2], by simp, ?_, ?_⟩
+    · intro d hd
+      rw [p6 d hd]
+      split
+      · rfl
+      · rename_i htr
+        have : dget r.raw d.name = none := by
+          cases hx : dget r.raw d.name with
+          | none => rfl
+          | some e => exact absurd ((hinv.rawDom d.name).mp (by simp [hx])) (hdis d hd)
+        simp [macrosOf, this, dm, htr]
+    · intro n hn
+      apply p7
+      intro hmem
+      obtain ⟨d, hd, e⟩ := List.mem_map.mp hmem
+      exact hdis d hd (e ▸ hn)
+  have ht := track_loop cfg r [] l _ ht0 (by simpa using hdis) (by simpa using hnd) hloop
+  simp only [List.nil_append] at ht
+  -- names and raw values of the result: the final re-expansion keeps them
+  have hfin : (addProfilesRaw cfg r l).1.names = (addEach cfg (preloadMacros r l) l).1.names ∧
+      (addProfilesRaw cfg r l).1.raw = (addEach cfg (preloadMacros r l) l).1.raw := by
+    unfold addProfilesRaw
+    simp only [hloop]
+    split
+    · cases hy : (resetProperties cfg (addEach cfg (preloadMacros r l) l).1 none).2 with
+      | none =>
+        simp only [updateKnown]
+        exact ⟨(resetProperties_fields cfg _ none).1, (resetProperties_fields cfg _ none).2.1⟩
+      | some e => simp only; exact ⟨(resetProperties_fields cfg _ none).1, (resetProperties_fields cfg _ none).2.1⟩
+    · exact ⟨rfl, rfl⟩
+  unfold addProfiles
+  rw [h2]
+  unfold contents
+  rw [hfin.1, hfin.2, ht.names, List.map_append, List.map_map]
+  congr 1
+  · apply List.map_congr_left
+    intro n hn
+    simp [propsOf, macrosOf, ht.rawOld n hn]
+  · apply List.map_congr_left
+    intro d hd
+    simp [propsOf, macrosOf, ht.rawPre d hd]
+
+theorem removeProfile_noSuch (cfg : Cfg) (r : Reg) (p : Str) (hinv : Inv cfg r)
+    (h : (removeProfile cfg r (some p)).2 = some .noSuchProfile) : p ∉ r.names := by
+  intro hp
+  have hraw : (removeProfileRaw cfg r (some p)).2 = some .noSuchProfile := by
+    cases hx : (removeProfileRaw cfg r (some p)).2 with
+    | none =>
+      unfold removeProfile at h
+      rw [atomic_ok' _ r hx, hx] at h; simp at h
+    | some e =>
+      unfold removeProfile at h
+      rw [atomic_err _ r e hx] at h
+      simpa using h
+  obtain ⟨e, he⟩ : ∃ e, dget r.raw p = some e := by
+    have := (hinv.rawDom p).mpr hp
+    cases hd : dget r.raw p with
+    | none => simp [hd] at this
+    | some e => exact ⟨e, rfl⟩
+  obtain ⟨exp, _, hcp⟩ := hinv.cvals p hp
+  unfold removeProfileRaw at hraw
+  simp only [he, hcp, hp, if_true] at hraw
+  split at hraw
+  · split at hraw
+    · rename_i x hx
+      simp only [Option.some.injEq] at hraw
+      subst hraw
+      exact absurd hx (resetProperties_not_noSuch _ _ _)
+    · simp at hraw
+  · simp [updateKnown] at hraw
+
+theorem step_contents (cfg : Cfg) (r : Reg) (op : Op) (hinv : Inv cfg r) (hok : StepOk cfg r op) (hpl : Plain r op) :
+    contents (step cfg r op).1 = cstep (contents r) op ∧ (step cfg r op).1.default = dstep r.default op := by
   cases op with
   | add p ps ms =>
-    obtain ⟨hguard, hexp⟩ := hg
-    obtain ⟨_, hi, hn, hr, hd⟩ := addProfile_inv cfg r p ps ms hinv hguard hexp
-    refine ⟨hi, ?_, hd⟩
+    have hs : (addProfile cfg r p ps ms).2 = none := by
+      cases hok with
+      | inl h => exact h
+      | inr h => obtain ⟨⟨q, hq⟩, _⟩ := h; cases hq
+    obtain ⟨hn, hr, hd⟩ := addProfile_ok cfg r p ps ms hinv hs
+    refine ⟨?_, hd⟩
     show contents (addProfile cfg r p ps ms).1 = _
     unfold contents cstep
     rw [hn, hr]
     simp only [List.map_map, Function.comp_def, List.map_id']
     by_cases hp : p ∈ r.names
-    · have hf : truthy ms = false := by
-        cases hguard with
-        | inl h => exact absurd hp h
-        | inr h => exact h
-      simp only [addNames, hp, if_true, hf, Bool.false_eq_true, if_false]
+    · simp only [addNames, hp, if_true]
       apply List.map_congr_left
       intro n _
       by_cases hnp : n = p
       · subst hnp
-        simp [propsOf_dset_self, macrosOf_dset_self, storedMacros, hf]
+        simp [propsOf_dset_self, macrosOf_dset_self, storedMacros]
       · have : ¬ p = n := fun e => hnp e.symm
         simp [hnp, propsOf_dset_ne _ _ _ _ this, macrosOf_dset_ne _ _ _ _ this]
     · simp only [addNames, hp, if_false, List.map_append, List.map_cons, List.map_nil]
@@ -1453,21 +2123,30 @@ theorem step_good (cfg : Cfg) (r : Reg) (op : Op) (hinv : Inv cfg r) (hg : Good 
         have : ¬ p = n := fun e => hp (e ▸ hn')
         simp [propsOf_dset_ne _ _ _ _ this, macrosOf_dset_ne _ _ _ _ this]
       · simp only [propsOf_dset_self, macrosOf_dset_self, storedMacros, hnone]
-        try (split <;> rfl)
   | addMany l =>
-    obtain ⟨hempty, hnd, hex⟩ := hg
-    obtain ⟨_, hi, hc, hd⟩ := addProfiles_inv_empty cfg r l hinv hempty hnd hex
-    refine ⟨hi, ?_, hd⟩
-    show contents (addProfiles cfg r l).1 = contents r ++ _
-    rw [hc]
-    simp [contents, hempty]
+    have hs : (addProfiles cfg r l).2 = none := by
+      cases hok with
+      | inl h => exact h
+      | inr h => obtain ⟨⟨q, hq⟩, _⟩ := h; cases hq
+    obtain ⟨hdis, hnd⟩ := hpl
+    refine ⟨addProfiles_ok_plain cfg r l hinv hdis hnd hs, ?_⟩
+    show (addProfiles cfg r l).1.default = r.default
+    obtain ⟨_, h2⟩ := atomic_ok _ r hs
+    unfold addProfiles
+    rw [h2]; exact addProfilesRaw_default cfg r l
   | remove q =>
-    cases q with
-    | none => exact ⟨hinv, rfl, rfl⟩
-    | some p =>
-      by_cases hp : p ∈ r.names
-      · obtain ⟨_, hi, hn, hr, hd⟩ := removeProfile_inv cfg r p hinv hp (hg hp)
-        refine ⟨hi, ?_, hd⟩
+    cases hok with
+    | inl hs =>
+      cases q with
+      | none =>
+        have : (removeProfile cfg r none).2 = some .noSuchProfile := by
+          unfold removeProfile
+          rw [atomic_err _ r .noSuchProfile (by simp [removeProfileRaw])]
+        rw [show (step cfg r (.remove none)).2 = (removeProfile cfg r none).2 from rfl, this] at hs
+        simp at hs
+      | some p =>
+        obtain ⟨hp, hn, hr, hd⟩ := removeProfile_ok cfg r p hinv hs
+        refine ⟨?_, hd⟩
         show contents (removeProfile cfg r (some p)).1 = (contents r).filter (fun e => e.name ≠ p)
         unfold contents
         rw [hn, hr, hinv.nodup.erase_eq_filter p, List.filter_map]
@@ -1483,38 +2162,38 @@ theorem step_good (cfg : Cfg) (r : Reg) (op : Op) (hinv : Inv cfg r) (hg : Good 
         have hnp : n ≠ p := by
           intro e; simp [e] at hn'
         simp [propsOf_derase_ne _ _ _ hnp, macrosOf_derase_ne _ _ _ hnp]
-      · have hu := removeProfile_unknown cfg r p hinv hp
-        refine ⟨by show Inv cfg (removeProfile cfg r (some p)).1; rw [hu]; exact hinv, ?_, ?_⟩
-        · show contents (removeProfile cfg r (some p)).1 = _
-          rw [hu]
-          show contents r = (contents r).filter (fun e => e.name ≠ p)
-          unfold contents
-          rw [List.filter_map]
-          symm
-          have : List.filter ((fun e : Entry => decide (e.name ≠ p)) ∘ fun n =>
-              ({ name := n, props := propsOf r.raw n, macros := macrosOf r.raw n } : Entry)) r.names = r.names := by
-            rw [List.filter_eq_self]
-            intro x hx
-            have : x ≠ p := fun e => hp (e ▸ hx)
-            simp [this]
-          rw [this]
-        · show (removeProfile cfg r (some p)).1.default = _
-          rw [hu]; rfl
-  | removeAll =>
-    exact ⟨removeAll_inv_partial cfg r hinv hg, rfl, rfl⟩
-  | setDefault d =>
-    exact ⟨setDefault_inv cfg r d hinv, rfl, rfl⟩
+    | inr h =>
+      obtain ⟨_, hns⟩ := h
+      have hsame : (step cfg r (.remove q)).1 = r := step_fail cfg r _ _ hns
+      rw [hsame]
+      refine ⟨?_, rfl⟩
+      cases q with
+      | none => rfl
+      | some p =>
+        have hp : p ∉ r.names := removeProfile_noSuch cfg r p hinv hns
+        show contents r = (contents r).filter (fun e => e.name ≠ p)
+        unfold contents
+        rw [List.filter_map]
+        symm
+        have : List.filter ((fun e : Entry => decide (e.name ≠ p)) ∘ fun n =>
+            ({ name := n, props := propsOf r.raw n, macros := macrosOf r.raw n } : Entry)) r.names = r.names := by
+          rw [List.filter_eq_self]
+          intro x hx
+          have : x ≠ p := fun e => hp (e ▸ hx)
+          simp [this]
+        rw [this]
+  | removeAll => exact ⟨rfl, rfl⟩
+  | setDefault d => exact ⟨rfl, rfl⟩
 
-theorem run_good (cfg : Cfg) (r : Reg) (ops : List Op) (hinv : Inv cfg r) (hg : GoodRun cfg r ops) :
-    Inv cfg (run cfg r ops) ∧ contents (run cfg r ops) = crun (contents r) ops ∧
-    (run cfg r ops).default = drun r.default ops := by
+theorem run_contents (cfg : Cfg) (r : Reg) (ops : List Op) (hinv : Inv cfg r) (hq : QuietRun cfg r ops) :
+    contents (run cfg r ops) = crun (contents r) ops ∧ (run cfg r ops).default = drun r.default ops := by
   induction ops generalizing r with
-  | nil => exact ⟨hinv, rfl, rfl⟩
+  | nil => exact ⟨rfl, rfl⟩
   | cons op ops ih =>
-    obtain ⟨h1, h2⟩ := hg
-    obtain ⟨hi, hc, hd⟩ := step_good cfg r op hinv h1
-    obtain ⟨a, b, c⟩ := ih (step cfg r op).1 hi h2
-    exact ⟨a, by rw [show run cfg r (op :: ops) = run cfg (step cfg r op).1 ops from rfl, b, hc]; rfl,
+    obtain ⟨h1, h2, h3⟩ := hq
+    obtain ⟨hc, hd⟩ := step_contents cfg r op hinv h1 h2
+    obtain ⟨b, c⟩ := ih (step cfg r op).1 (step_inv cfg r op hinv) h3
+    exact ⟨by rw [show run cfg r (op :: ops) = run cfg (step cfg r op).1 ops from rfl, b, hc]; rfl,
       by rw [show run cfg r (op :: ops) = run cfg (step cfg r op).1 ops from rfl, c, hd]; rfl⟩
 
 /-- the operation names profile `p` -/
